@@ -39,6 +39,7 @@ struct FmmCase {
     int tsm = 0;
     int executor = 0;                   // 0 sequential, 1 openmp, 2 specx, 3 starpu
     int threads = 1;
+    int threadsCtor = 0;                // worker count while the executor object is constructed (0 = same as threads)
     std::vector<int> history;           // C12: flag sets, in call order (empty = one full call)
     std::vector<uint32_t> sched;        // C03: scheduler decisions
     std::vector<std::vector<MoveOp>> cycles; // C13: per cycle list of edits
@@ -75,6 +76,7 @@ struct FmmCase {
         if(blockSize2){ j["blockSize2"] = blockSize2; j["envBlock2"] = envBlock2; j["oneGroupPerParent2"] = oneGroupPerParent2; }
         j["lstop"] = lstop; j["extraLevels"] = extraLevels; j["tsm"] = tsm;
         j["executor"] = executor; j["threads"] = threads;
+        if(threadsCtor) j["threadsCtor"] = threadsCtor;
         if(!history.empty()) j["history"] = vecToJson(history);
         if(!sched.empty()){ vj::Value a = vj::Value::array(); for(auto x : sched) a.push(vj::Value((long long)x)); j["sched"] = a; }
         if(!cycles.empty()){
@@ -109,7 +111,7 @@ struct FmmCase {
         c.blockSize = j.getInt("blockSize", 4); c.envBlock = j.getInt("envBlock", 0); c.oneGroupPerParent = int(j.getInt("oneGroupPerParent", 0));
         c.blockSize2 = j.getInt("blockSize2", 0); c.envBlock2 = j.getInt("envBlock2", 0); c.oneGroupPerParent2 = int(j.getInt("oneGroupPerParent2", 0));
         c.lstop = int(j.getInt("lstop", -100)); c.extraLevels = int(j.getInt("extraLevels", -2)); c.tsm = int(j.getInt("tsm", 0));
-        c.executor = int(j.getInt("executor", 0)); c.threads = int(j.getInt("threads", 1));
+        c.executor = int(j.getInt("executor", 0)); c.threads = int(j.getInt("threads", 1)); c.threadsCtor = int(j.getInt("threadsCtor", 0));
         if(j.has("history")) for(const auto& x : j.at("history").arr) c.history.push_back(int(x.asInt()));
         if(j.has("sched")) for(const auto& x : j.at("sched").arr) c.sched.push_back(uint32_t(x.asInt()));
         if(j.has("cycles")){
